@@ -32,7 +32,8 @@ def pick(vs, nd):
 
 def unit(part, name, entry, vectors, space, nd, outside='resolution concurrently on another thread (E2 half of the property); callbacks that throw'):
     return dict(engine='e1', name=name, tu='C18.cpp', defines=('C18_PART=%d' % part,), entry=entry, unwind=4, vectors=vectors,
-                concrete=pick(vectors, nd), cbmc_extra=FS, timeout=600, space=space,
+                concrete=pick(vectors, nd), cbmc_extra=FS, timeout=600, space=space, jobs=(10 if part == 3 else 16),     # the converter unit needs ~4 GB per query
+
                 data='resolved value (32-bit int), exception tags (8 bit), converter offset: symbolic',
                 bounds='one adapter instance and one awaited operation per program', outside=outside)
 
